@@ -70,6 +70,51 @@ func (e *Engine) registerIntrinsics() {
 		fr.ex.Assume(tt.Cmp(OpULt, t, tt.BV(uint64(n), 64)))
 		return fr.ex.concretize(t, int(n), "verifChoice")
 	})
+	asT := func(fr *frame, v value) *Term {
+		switch v := v.(type) {
+		case bool:
+			return fr.ex.tt.Bool(v)
+		case *Term:
+			return v
+		}
+		panic("verif logic intrinsic: not a bool")
+	}
+	simp := func(t *Term) value {
+		if t.IsConst() && t.W == SBool {
+			return t.C != 0
+		}
+		return t
+	}
+	e.Register(p+"verifAnd", func(fr *frame, a []value) value { return simp(fr.ex.tt.And(asT(fr, a[0]), asT(fr, a[1]))) })
+	e.Register(p+"verifOr", func(fr *frame, a []value) value { return simp(fr.ex.tt.Or(asT(fr, a[0]), asT(fr, a[1]))) })
+	e.Register(p+"verifNot", func(fr *frame, a []value) value { return simp(fr.ex.tt.Not(asT(fr, a[0]))) })
+	e.Register(p+"verifImplies", func(fr *frame, a []value) value {
+		return simp(fr.ex.tt.Or(fr.ex.tt.Not(asT(fr, a[0])), asT(fr, a[1])))
+	})
+	e.Register(p+"verifIteInt", func(fr *frame, a []value) value {
+		c := asT(fr, a[0])
+		if c.IsConst() {
+			if c.C != 0 {
+				return a[1]
+			}
+			return a[2]
+		}
+		r := fr.ex.tt.Ite(c, fr.ex.liftW(a[1], 64), fr.ex.liftW(a[2], 64))
+		if r.IsConst() {
+			return r.C
+		}
+		return r
+	})
+	e.Register(p+"verifCfg", func(fr *frame, a []value) value {
+		name := str(a[0], "cfg name")
+		v, ok := e.Cfg[name]
+		if !ok {
+			v = int(fr.sint(a[1], nil, "cfg default"))
+		}
+		t := fr.ex.Input("cfg_"+name, 64)
+		fr.ex.Assume(fr.ex.tt.Eq(t, fr.ex.tt.BV(uint64(v), 64)))
+		return uint64(v)
+	})
 	e.Register(p+"tokenize", func(fr *frame, a []value) value {
 		if e.Native == nil {
 			unsupported("tokenize needs the native helper")
